@@ -391,4 +391,114 @@ theorem writeE_eq (lt cum : Bool) (bs : Nat) (es : List Extent) (size off : Nat)
   simp only [writeE, writeE_size2]
   rfl
 
+/-! ### File.Write (one pass of the loop), and the zero fill of the repaired File.Write -/
+
+theorem writeE_ok (dev : Dev) (bs : Nat) (es : List Extent) (size off : Nat) (b : Bytes)
+    (hbs : 0 < bs) (hc : Contig 0 es) (hd : DiskDisjoint es)
+    (hsz : size ≤ blockCount es * bs) (hfit : off + b.length ≤ blockCount es * bs) :
+    ∃ r, writeE false true bs es size off b = .ok r ∧
+      r.written = b.length ∧ r.off = off + b.length ∧ r.size = max size (off + b.length) ∧
+      (∀ w ∈ r.ws, 0 ≤ w.1) ∧
+      fileBytes (applyWrs dev (toWrs r.ws)) bs es = splice (fileBytes dev bs es) off b ∧
+      ∀ i, Outside bs es i → applyWrs dev (toWrs r.ws) i = dev i := by
+  have hceil := (ceil_le_iff (max size (off + b.length)) bs (blockCount es) hbs).2 (by omega)
+  rw [writeE_eq, if_neg (by omega)]
+  obtain ⟨ws', hr, hnn, hdev⟩ := writeLoop_spec bs off b hbs es 0 off 0 [] hc hd (by simp) (Nat.le_refl _)
+    (Or.inl ⟨rfl, rfl⟩) (Nat.zero_le _) (by simp; omega)
+  rw [hr]
+  obtain ⟨hF, hfr⟩ := hdev dev
+  simp only [Nat.zero_mul, Nat.sub_zero, List.drop_zero] at hF
+  exact ⟨_, rfl, rfl, by simp, rfl, hnn, hF, hfr⟩
+
+theorem applyWrs_toWrs_append (dev : Dev) (a c : List (Int × Bytes)) :
+    applyWrs dev (toWrs (a ++ c)) = applyWrs (applyWrs dev (toWrs a)) (toWrs c) := by
+  simp [toWrs, applyWrs, List.foldl_append]
+
+/-- two adjacent splices are one -/
+theorem splice_splice_adj (F : Bytes) (p : Nat) (d1 d2 : Bytes) (h : p ≤ F.length) :
+    splice (splice F p d1) (p + d1.length) d2 = splice F p (d1 ++ d2) := by
+  have h1 : (F.take p).length = p := by simp; omega
+  have ht : (F.take p ++ d1 ++ F.drop (p + d1.length)).take (p + d1.length) = F.take p ++ d1 := by
+    rw [List.take_append_of_le_length (by simp; omega)]
+    exact List.take_of_length_le (by simp; omega)
+  have hl : (F.take p ++ d1).length = p + d1.length := by rw [List.length_append, h1]
+  have hdr : (F.take p ++ d1 ++ F.drop (p + d1.length)).drop (p + d1.length + d2.length) =
+      F.drop (p + (d1.length + d2.length)) := by
+    rw [List.drop_append, List.drop_of_length_le (by rw [hl]; omega), hl, List.nil_append, List.drop_drop]
+    congr 1
+    omega
+  simp only [splice, List.length_append]
+  rw [ht, hdr]
+  simp
+
+/-- a window that ends in front of a splice does not see it -/
+theorem splice_window_before (G : Bytes) (off : Nat) (b : Bytes) (s a n : Nat)
+    (h : off ≤ G.length) (hs : off ≤ s) (han : a + n ≤ off) :
+    (((splice G off b).take s).drop a).take n = (((G.take off).drop a).take n) := by
+  have h1 : (G.take off).length = off := by simp; omega
+  simp only [splice, List.append_assoc]
+  rw [List.take_append, List.take_of_length_le (by omega : (G.take off).length ≤ s)]
+  rw [List.drop_append_of_le_length (by omega), List.take_append_of_le_length (by simp; omega)]
+
+theorem zeros_append (a c : Nat) : zeros a ++ zeros c = zeros (a + c) := by
+  simp [zeros, List.replicate_append_replicate]
+
+/-- the zero fill: `fuel ≥ target - size` appends later, the bytes from `size` to `target` are zero, everything
+    else (in the file and outside it) is as before -/
+theorem zeroFill_spec (bs : Nat) (es : List Extent) (target : Nat)
+    (hbs : 0 < bs) (hc : Contig 0 es) (hd : DiskDisjoint es) (ht : target ≤ blockCount es * bs) :
+    ∀ (fuel size : Nat) (ws : List (Int × Bytes)), size ≤ target → target - size ≤ fuel →
+      ∃ ws', zeroFill false true bs es target fuel size ws = .ok ⟨ws ++ ws', 0, target, target⟩ ∧
+        (∀ w ∈ ws', 0 ≤ w.1) ∧
+        ∀ dev : Dev,
+          fileBytes (applyWrs dev (toWrs ws')) bs es = splice (fileBytes dev bs es) size (zeros (target - size)) ∧
+          ∀ i, Outside bs es i → applyWrs dev (toWrs ws') i = dev i := by
+  intro fuel
+  induction fuel with
+  | zero =>
+    intro size ws h1 h2
+    have : size = target := by omega
+    subst this
+    refine ⟨[], by simp [zeroFill], by simp, fun dev => ?_⟩
+    rw [applyWrs_toWrs_nil]
+    exact ⟨by simp [zeros, splice_nil], fun i _ => rfl⟩
+  | succ fuel ih =>
+    intro size ws h1 h2
+    by_cases hge : size ≥ target
+    · have : size = target := by omega
+      subst this
+      refine ⟨[], by simp [zeroFill], by simp, fun dev => ?_⟩
+      rw [applyWrs_toWrs_nil]
+      exact ⟨by simp [zeros, splice_nil], fun i _ => rfl⟩
+    · generalize hcdef : min (target - size) zeroChunk = c
+      have hcpos : 0 < c := by rw [← hcdef]; simp only [zeroChunk]; omega
+      have hcle : c ≤ target - size := by rw [← hcdef]; exact Nat.min_le_left _ _
+      have hzl : (zeros c).length = c := zeros_length c
+      have hW := fun dev => writeE_ok dev bs es size size (zeros c) hbs hc hd (by omega) (by rw [hzl]; omega)
+      obtain ⟨r, hr, hwr, _, hsize, hnn, _, _⟩ := hW (fun _ => 0)
+      rw [hzl] at hwr hsize
+      have hrs : r.size = size + c := by rw [hsize]; omega
+      obtain ⟨ws2, hz2, hnn2, hdev2⟩ := ih (size + c) (ws ++ r.ws) (by omega) (by omega)
+      refine ⟨r.ws ++ ws2, ?_, ?_, ?_⟩
+      · simp only [zeroFill, hge, if_false, hcdef, hr]
+        rw [if_neg (by omega), hrs, hz2, List.append_assoc]
+      · intro w hw
+        rcases List.mem_append.1 hw with h | h
+        · exact hnn w h
+        · exact hnn2 w h
+      · intro dev
+        obtain ⟨r', hr', _, _, _, _, hF1, hfr1⟩ := hW dev
+        have : r' = r := by rw [hr] at hr'; cases hr'; rfl
+        subst this
+        obtain ⟨hF2, hfr2⟩ := hdev2 (applyWrs dev (toWrs r'.ws))
+        rw [applyWrs_toWrs_append]
+        refine ⟨?_, fun i hi => by rw [hfr2 i hi, hfr1 i hi]⟩
+        rw [hF2, hF1]
+        have hFl := fileBytes_length dev bs es
+        have := splice_splice_adj (fileBytes dev bs es) size (zeros c) (zeros (target - (size + c))) (by rw [hFl]; omega)
+        rw [hzl] at this
+        rw [this, zeros_append]
+        congr 2
+        omega
+
 end Diskfs.Ext4
